@@ -6,6 +6,7 @@ import (
 	"strings"
 
 	"github.com/carapace-sh/carapace"
+	shlex "github.com/carapace-sh/carapace-shlex"
 	"github.com/carapace-sh/carapace/pkg/style"
 )
 
@@ -272,7 +273,12 @@ func runFmt(raw json.RawMessage) interface{} {
 	}
 	out := carapace.VerifShellValue(in.Shell, in.Word, meta, values)
 	style.Carapace = styleBackup
-	return map[string]interface{}{"raw": out, "errStyle": style.Carapace.Error, "dfltStyle": style.Default}
+	// the raw text of the current token as the lexer (a dependency) sees it: an input of the zsh model
+	rawToken := ""
+	if tokens, err := shlex.Split("cmd " + in.Env.ZshRaw); err == nil {
+		rawToken = tokens.CurrentToken().RawValue
+	}
+	return map[string]interface{}{"raw": out, "errStyle": style.Carapace.Error, "dfltStyle": style.Default, "zshRawToken": rawToken}
 }
 
 func init() {
